@@ -197,26 +197,28 @@ def pKwarg (ts : List Tok) : Option ((String × KwVal) × List Tok) :=
     else none
   | _ => none
 
+/-- positional part of `arguments` -/
+def pPosPart (ts : List Tok) : Option (List ArgVal × List Tok) :=
+  if hdKind ts = .RBRAC || hdKind ts = .COMMA || isKwStart ts then some ([], ts)
+  else match pVal ts with
+       | some (v, rs) => pPosGo (rs.length + 1) [v] rs
+       | none => none
+
+/-- the optional COMMA between the positional and the keyword part -/
+def dropComma (ts : List Tok) : List Tok := if hdKind ts = .COMMA then ts.tail else ts
+
+/-- keyword part of `arguments` -/
+def pKwPart (ts : List Tok) : Option (List (String × KwVal) × List Tok) :=
+  if isKwStart ts then pSep pKwarg ts else some ([], ts)
+
 /-- `arguments`, called with the token after `(` -/
 def pArgsBody (ts : List Tok) : Option (Args × List Tok) :=
-  -- positional values
-  let posPart : Option (List ArgVal × List Tok) :=
-    if hdKind ts = .RBRAC || hdKind ts = .COMMA || isKwStart ts then some ([], ts)
-    else match pVal ts with
-         | some (v, rs) => pPosGo (rs.length + 1) [v] rs
-         | none => none
-  match posPart with
+  match pPosPart ts with
   | none => none
   | some (vals, r1) =>
-    let r2 := if hdKind r1 = .COMMA then r1.tail else r1
-    let kwPart : Option (List (String × KwVal) × List Tok) :=
-      if isKwStart r2 then pSep pKwarg r2 else some ([], r2)
-    match kwPart with
-    | none => none
-    | some (kws, r3) =>
-      match r3 with
-      | t :: r4 => if t.kind = .RBRAC then some (⟨vals, kws⟩, r4) else none
-      | [] => none
+    match pKwPart (dropComma r1) with
+    | some (kws, t :: r4) => if t.kind = .RBRAC then some (⟨vals, kws⟩, r4) else none
+    | _ => none
 
 /-- `arguments?` -/
 def pOptArgs (ts : List Tok) : Option (Option Args × List Tok) :=
@@ -313,6 +315,54 @@ def pInt (ts : List Tok) : Option (String × List Tok) :=
   | t :: rs => if t.kind = .INT then some (t.text, rs) else none
   | [] => none
 
+/-- optional `[ shape ]` of an `arrayvar` -/
+def pShapePart (r1 : List Tok) : Option (Option (List String) × List Tok) :=
+  if hdKind r1 = .LSQBRAC then
+    match pSep pInt r1.tail with
+    | some (sh, c :: r) => if c.kind = .RSQBRAC then some (some sh, r) else none
+    | _ => none
+  else some (none, r1)
+
+/-- `(arrayval | parameter)` -/
+def pArrBody (r3 : List Tok) : Option (ArrBody × List Tok) :=
+  if hdKind r3 = .LBRACE then
+    match r3 with
+    | _ :: p :: c :: r4 => if p.kind = .NAME && c.kind = .RBRACE then some (.bare p.text, r4) else none
+    | _ => none
+  else
+    match pRows (r3.length + 1) [] r3 with
+    | some (rows, r4) => some (.rows rows, r4)
+    | none => none
+
+/-- `arrayvar` after `vartype TYPE_ARRAY` -/
+def pArrDecl (ty : VarType) (pos : Pos) (rs : List Tok) : Option (Item × List Tok) :=
+  match pName rs with
+  | none => none
+  | some (nm, r1) =>
+    match pShapePart r1 with
+    | none => none
+    | some (shape, r2) =>
+      match r2 with
+      | a :: nl :: r3 =>
+        if a.kind = .ASSIGN && nl.kind = .NEWLINE then
+          match pArrBody r3 with
+          | some (body, r4) => some (.arr ty pos nm shape body, r4)
+          | none => none
+        else none
+      | _ => none
+
+/-- `expressionvar` after `vartype` -/
+def pVarDecl (ty : VarType) (rs : List Tok) : Option (Item × List Tok) :=
+  match pName rs with
+  | none => none
+  | some (nm, r1) =>
+    match expect .ASSIGN r1 with
+    | none => none
+    | some (_, r2) =>
+      match pVal r2 with
+      | some (v, r3) => some (.var ty nm v, r3)
+      | none => none
+
 /-- `expressionvar` / `arrayvar`, called at the vartype token -/
 def pDecl (ts : List Tok) : Option (Item × List Tok) :=
   match ts with
@@ -320,48 +370,7 @@ def pDecl (ts : List Tok) : Option (Item × List Tok) :=
   | t :: rs =>
     match VarType.ofTok t.kind with
     | none => none
-    | some ty =>
-      if hdKind rs = .TYPE_ARRAY then
-        -- arrayvar
-        match pName rs.tail with
-        | none => none
-        | some (nm, r1) =>
-          let shapePart : Option (Option (List String) × List Tok) :=
-            if hdKind r1 = .LSQBRAC then
-              match pSep pInt r1.tail with
-              | some (sh, c :: r) => if c.kind = .RSQBRAC then some (some sh, r) else none
-              | _ => none
-            else some (none, r1)
-          match shapePart with
-          | none => none
-          | some (shape, r2) =>
-            match r2 with
-            | a :: nl :: r3 =>
-              if a.kind = .ASSIGN && nl.kind = .NEWLINE then
-                if hdKind r3 = .LBRACE then
-                  match r3 with
-                  | _ :: p :: c :: r4 =>
-                    if p.kind = .NAME && c.kind = .RBRACE then
-                      some (.arr ty t.pos nm shape (.bare p.text), r4)
-                    else none
-                  | _ => none
-                else
-                  match pRows (r3.length + 1) [] r3 with
-                  | some (rows, r4) => some (.arr ty t.pos nm shape (.rows rows), r4)
-                  | none => none
-              else none
-            | _ => none
-      else
-        -- expressionvar
-        match pName rs with
-        | none => none
-        | some (nm, r1) =>
-          match expect .ASSIGN r1 with
-          | none => none
-          | some (_, r2) =>
-            match pVal r2 with
-            | some (v, r3) => some (.var ty nm v, r3)
-            | none => none
+    | some ty => if hdKind rs = .TYPE_ARRAY then pArrDecl ty t.pos rs.tail else pVarDecl ty rs
 
 /-- loop body `(NEWLINE TAB statement)+` after the first statement has been read -/
 def pBodyGo : Nat → List Stmt → List Tok → Option (List Stmt × List Tok)
@@ -376,6 +385,42 @@ def pBodyGo : Nat → List Stmt → List Tok → Option (List Stmt × List Tok)
       else some (acc.reverse, ts)
     | _ => some (acc.reverse, ts)
 
+/-- `rangeval | (LBRAC|LSQBRAC)? vallist (RBRAC|RSQBRAC)?` -/
+def pLoopHeader (rs : List Tok) : Option (LoopHeader × List Tok) :=
+  match rs with
+  | a :: c :: r0 =>
+    if a.kind = .INT && c.kind = .COLON then
+      match r0 with
+      | b :: r1 =>
+        if b.kind = .INT then
+          match r1 with
+          | c2 :: s :: r2 =>
+            if c2.kind = .COLON then
+              if s.kind = .INT then some (.range a.text b.text (some s.text), r2) else none
+            else some (.range a.text b.text none, r1)
+          | _ => some (.range a.text b.text none, r1)
+        else none
+      | [] => none
+    else
+      match bracketed pVallist (fun k => k = .NEWLINE) rs with
+      | some ((lb, vs, rb), r) => some (.list lb vs rb, r)
+      | none => none
+  | _ =>
+    match bracketed pVallist (fun k => k = .NEWLINE) rs with
+    | some ((lb, vs, rb), r) => some (.list lb vs rb, r)
+    | none => none
+
+/-- `(NEWLINE TAB statement)+` -/
+def pLoopBody (r1 : List Tok) : Option (List Stmt × List Tok) :=
+  match r1 with
+  | a :: b :: r2 =>
+    if a.kind = .NEWLINE && b.kind = .TAB then
+      match pStmt r2 with
+      | some (s, r3) => pBodyGo (r3.length + 1) [s] r3
+      | none => none
+    else none
+  | _ => none
+
 /-- `forloop`, called at FOR -/
 def pLoop (ts : List Tok) : Option (Item × List Tok) :=
   match ts with
@@ -384,40 +429,12 @@ def pLoop (ts : List Tok) : Option (Item × List Tok) :=
       match VarType.ofTok ty.kind with
       | none => none
       | some vt =>
-        let header : Option (LoopHeader × List Tok) :=
-          match rs with
-          | a :: c :: b :: r1 =>
-            if a.kind = .INT && c.kind = .COLON then
-              if b.kind = .INT then
-                match r1 with
-                | c2 :: s :: r2 =>
-                  if c2.kind = .COLON then
-                    if s.kind = .INT then some (.range a.text b.text (some s.text), r2) else none
-                  else some (.range a.text b.text none, r1)
-                | _ => some (.range a.text b.text none, r1)
-              else none
-            else
-              match bracketed pVallist (fun k => k = .NEWLINE) rs with
-              | some ((lb, vs, rb), r) => some (.list lb vs rb, r)
-              | none => none
-          | _ =>
-            match bracketed pVallist (fun k => k = .NEWLINE) rs with
-            | some ((lb, vs, rb), r) => some (.list lb vs rb, r)
-            | none => none
-        match header with
+        match pLoopHeader rs with
         | none => none
         | some (h, r1) =>
-          match r1 with
-          | a :: b :: r2 =>
-            if a.kind = .NEWLINE && b.kind = .TAB then
-              match pStmt r2 with
-              | some (s, r3) =>
-                match pBodyGo (r3.length + 1) [s] r3 with
-                | some (body, r4) => some (.loop vt x.text h body, r4)
-                | none => none
-              | none => none
-            else none
-          | _ => none
+          match pLoopBody r1 with
+          | some (body, r4) => some (.loop vt x.text h body, r4)
+          | none => none
     else none
   | _ => none
 
